@@ -1344,5 +1344,7 @@ def replay(rec):
                 R.check("fresh-is-unfitted", est.is_fitted is False, f"fresh {n} reports is_fitted={est.is_fitted!r}")
             check_clone(R, est, f"{n} built from the counterexample")
     run_all(R, "quick", 0, only=only or None)
-    f = [x for x in R.failures if not x["key"].startswith("KF:")] + [x for x in R.failures if x["key"].startswith("KF:")]
+    # findings under a KF: key count as a reproduction only when the run was restricted to the classes of the target
+    # (an unrestricted run always meets the listed known findings of other classes)
+    f = [x for x in R.failures if not x["key"].startswith("KF:")] + ([x for x in R.failures if x["key"].startswith("KF:")] if only else [])
     return {"reproduced": bool(f), "detail": f[:3], "input": {"classes": sorted(only) or "all", "constructed": built, "case": rec.get("case")}}
